@@ -8,4 +8,6 @@ INVARIANT InitSnap
 INVARIANT FirstAtZero
 INVARIANT CursorMonotone
 INVARIANT TotalIsEnd
+INVARIANT SlotRestIsGap
+INVARIANT ClassesCovered
 CHECK_DEADLOCK FALSE
